@@ -5,18 +5,18 @@ CONSTANTS
   HasHead = TRUE
   Manual = FALSE
   HasPay = FALSE
-  HasPlans = TRUE
-  HasSerial = TRUE
+  HasPlans = FALSE
+  HasSerial = FALSE
   HasHist = TRUE
   HasLog = FALSE
   Verbose = FALSE
   InjCnt <- NoInj
   DefMask <- AllDef
-  MaxActs = 1
+  MaxActs = 2
   WithMonitors = TRUE
-  EnvOps <- SmokeOps
-  EnvActs <- SmokeActs
-  EnvPoints <- AllPoints
+  EnvOps <- GuardOps
+  EnvActs <- GuardActs
+  EnvPoints <- GuardPoints
 INIT Init
 NEXT Next
 VIEW StView
